@@ -142,6 +142,9 @@ type Task struct {
 	site      uintptr
 	op        string
 	spinEpoch uint64
+	freed     bool // got a free pass as a spinner: its own steps are not progress of the system
+	recent    [24]uintptr
+	nrecent   int
 	qAdvance  bool
 	qLimit    int64 // with qAdvance: do not advance the clock beyond this (0 = no limit)
 	prio      int
@@ -202,6 +205,8 @@ type Result struct {
 	Log        []string
 	ClockJumps int
 	Spin       string // set when a capped run ended in a tight loop of one task: "task|func1,func2,..."
+	SpinAlone  bool   // ... and no other task could take a step and no timer was pending: the loop can never end
+	RestSpin   string // tasks that were still spinning when the rest of the system had come to rest and quiescence was declared without them: "task|func1,func2,..."
 }
 
 // Counters is a small name->count table kept as a slice (no map: task goroutines update it
@@ -425,22 +430,54 @@ func (s *Sim) loop(mainT *Task) {
 		if s.steps >= s.cfg.MaxSteps {
 			r.Outcome = "capped"
 			r.Spin = s.spinWitness()
+			if r.Spin != "" && len(s.timers) == 0 {
+				r.SpinAlone = true
+				for _, t := range s.eligible() {
+					if t.ID != s.ring[0].task {
+						r.SpinAlone = false
+					}
+				}
+			}
 			return
 		}
 		elig := s.eligible()
 		if len(elig) == 0 {
-			// only spinners left? give them a pass, bounded
+			q := s.quiesceT
+			qReady := q != nil && q.st == stQuiesce && (!q.qAdvance || len(s.timers) == 0 || (q.qLimit > 0 && s.timers[0].at > q.qLimit))
+			// only spinners left? give them a pass, bounded. The steps a spinner takes between two
+			// Gosched calls (re-testing its condition) are not progress of the system.
 			if sp := s.spinners(); len(sp) > 0 {
 				s.freePass++
-				if s.freePass > 200 {
+				pass := false
+				switch {
+				case s.freePass <= 50:
+					pass = true
+				case qReady:
+					// 50 rounds in which nobody but the spinners could run: the rest of the system is at
+					// rest. Whoever waits for quiescence goes on (it may be the one who ends the spinning);
+					// what was spinning is recorded.
+					if r.RestSpin == "" {
+						r.RestSpin = restWitness(sp)
+					}
+				case len(s.timers) > 0:
+					s.advanceClock()
+					continue
+				case s.freePass <= 200:
+					pass = true
+				default:
 					r.Outcome = "livelock"
+					r.Spin = s.spinWitness()
 					return
 				}
-				s.epoch++
-				continue
+				if pass {
+					for _, t := range sp {
+						t.freed = true
+					}
+					s.epoch++
+					continue
+				}
 			}
-			q := s.quiesceT
-			if q != nil && q.st == stQuiesce && (!q.qAdvance || len(s.timers) == 0 || (q.qLimit > 0 && s.timers[0].at > q.qLimit)) {
+			if qReady {
 				s.quiesceT = nil
 				s.resumeTask(q)
 				continue
@@ -464,6 +501,31 @@ func (s *Sim) loop(mainT *Task) {
 		}
 		s.resumeTask(elig[k])
 	}
+}
+
+// restWitness names the spinning tasks and the functions their recent steps were in.
+func restWitness(sp []*Task) string {
+	var parts []string
+	for _, t := range sp {
+		if t.nrecent < len(t.recent) {
+			continue // too young to call it a loop
+		}
+		fns := map[string]bool{}
+		for _, pc := range t.recent {
+			f := SiteString(pc)
+			if i := strings.LastIndex(f, " "); i >= 0 {
+				f = f[i+1:]
+			}
+			fns[f] = true
+		}
+		var names []string
+		for f := range fns {
+			names = append(names, f)
+		}
+		sort.Strings(names)
+		parts = append(parts, t.Name+"|"+strings.Join(names, ","))
+	}
+	return strings.Join(parts, ";")
 }
 
 // spinWitness inspects the last steps of a capped run: one task cycling through a handful of
@@ -563,12 +625,19 @@ func (s *Sim) resumeTask(t *Task) {
 	s.steps++
 	if t.st != stSpin {
 		s.epoch++
-		s.freePass = 0
+		if !t.freed {
+			s.freePass = 0
+			for _, o := range s.tasks {
+				o.freed = false
+			}
+		}
 	}
 	if t != s.last {
 		s.res.Switches++
 	}
 	s.ring[s.steps%len(s.ring)] = ringEnt{t.ID, t.site}
+	t.recent[t.nrecent%len(t.recent)] = t.site
+	t.nrecent++
 	// trace + hash
 	h := s.hash
 	h = (h ^ uint64(t.ID)) * 1099511628211
